@@ -764,7 +764,7 @@ func callBuiltin(g *G, caller *frame, callpos token.Pos, fn *ssa.Builtin, args [
 		m := args[0].(*omap)
 		if m != nil {
 			g.mapAccess(m, true)
-			m.delete(g.concKey(args[1]))
+			m.delete(g.mapKey(m, args[1]))
 		}
 		return nil
 	case "print", "println":
